@@ -69,7 +69,8 @@ def c02_case(allow=('counter', 'stat', 'tanh', 'shared')):
         ' reused, shared): init tree == independent expected tree (paths, '
         'shapes, dtypes); apply(init_vars) needs no rng, reproduces init\'s '
         'output (stateless programs) and with mutable=True returns the same '
-        'structure; lazy_init / eval_shape(init) / jit(init) agree; non-'
+        'structure; module.bind(v).unbind() is again a matching (module, '
+        'variables) pair; lazy_init / eval_shape(init) / jit(init) agree; non-'
         'trivial = depth>=2 and (auto-named sibling pair of one class, or a '
         're-called/shared child)')
 def structure_and_roundtrip(case, ctx):
@@ -101,6 +102,15 @@ def structure_and_roundtrip(case, ctx):
   with sut('apply(FrozenDict)'):
     y3 = mod.apply(freeze(v), x)
   require(out_eq(y1, y3), 'FrozenDict variables give a different output')
+  # bind / unbind of the whole tree: the unbound module (sharing between
+  # nested sub-modules included) and its variables are again a matching pair
+  with sut('bind(...).unbind()'):
+    m2, v2 = mod.bind(v).unbind()
+    y4 = m2.apply(v2, x)
+  require(shapes(unfreeze(v2)) == exp, lambda: f'unbind() returned variables '
+          f'{shapes(unfreeze(v2))}, bound with {exp}')
+  require(out_eq(y1, y4), 'module.bind(v).unbind() applied to its variables '
+          'computes something else than module.apply(v)')
   # shape-only initialisation
   with sut('eval_shape(init)'):
     abs_v = jax.eval_shape(lambda k, xx: mod.init(k, xx), key, x)
@@ -132,6 +142,140 @@ def structure_and_roundtrip(case, ctx):
                    case['prog']['style']],
            nontrivial=depth(case['prog']) >= 2 and (
                has_sibling_pair(case['prog']) or recalled))
+
+
+# ----------------------------------------------------------------------------
+# module instances shared between nested parents (as dataclass attributes)
+# ----------------------------------------------------------------------------
+class SWrap(nn.Module):
+  inner: nn.Module
+  scale: float = 1.0
+
+  @nn.compact
+  def __call__(self, x):
+    b = self.param('b', nn.initializers.normal(1.0), (x.shape[-1],))
+    return self.inner(x) * self.scale + b
+
+
+class SPair(nn.Module):
+  a: nn.Module
+  b: nn.Module
+
+  def __call__(self, x):
+    return self.a(x) + 0.5 * self.b(jnp.tanh(x))
+
+
+def share_tree(depth):
+  leaf = st.integers(0, 2).map(lambda j: {'leaf': j})
+  if depth == 0:
+    return leaf
+  inner = share_tree(depth - 1)
+  return st.one_of(
+      leaf,
+      st.tuples(inner, st.sampled_from([1.0, 2.0])).map(
+          lambda t: {'wrap': t[0], 'scale': t[1]}),
+      st.tuples(inner, inner).map(lambda t: {'pair': list(t)}))
+
+
+def build_share(node, pool):
+  if 'leaf' in node:
+    return pool[node['leaf']]
+  if 'wrap' in node:
+    return SWrap(build_share(node['wrap'], pool), node['scale'])
+  return SPair(build_share(node['pair'][0], pool),
+               build_share(node['pair'][1], pool))
+
+
+def leaf_paths(node, path=()):
+  if 'leaf' in node:
+    return [(path, node['leaf'])]
+  if 'wrap' in node:
+    return leaf_paths(node['wrap'], path + ('inner',))
+  return leaf_paths(node['pair'][0], path + ('a',)) + leaf_paths(
+      node['pair'][1], path + ('b',))
+
+
+@clause('shared_instances',
+        strategy=lambda: st.tuples(share_tree(3), st.integers(1, 3),
+                                   st.integers(0, 2**16)),
+        quick=200, thorough=10000, quick_shards=8, thorough_shards=16,
+        shrink=False,
+        rule='trees (depth <= 3) of wrapper / pair modules whose leaves are '
+        'drawn from a pool of three Dense instances, so one instance may be '
+        'an attribute of several nested parents: the shared instance has one '
+        'set of parameters; module.bind(v).unbind(), module.clone() and '
+        'module.copy() are again matching (module, variables) pairs that '
+        'compute what the bound module computes; re-initialising the unbound '
+        'module reproduces the variables; without sharing, every attribute '
+        'sub-module obtained with bind(v).<path>.unbind() computes on its own '
+        'subtree what it computes in place; non-trivial = an instance is shared '
+        'between two parents below the root')
+def shared_instances(case, ctx):
+  tree, D, seed = case
+  pool = [nn.Dense(D) for _ in range(3)]
+  top = build_share({'wrap': tree, 'scale': 1.0}, pool)
+  x = jnp.asarray(np.random.default_rng(seed).normal(size=(2, D)),
+                  jnp.float32)
+  key = jax.random.key(seed)
+  with sut('init'):
+    v = top.init(key, x)
+  used = {}
+  for pth, j in leaf_paths(tree, ('inner',)):
+    used.setdefault(j, []).append(pth)
+  n_dense = sum(1 for p in L.flat(unfreeze(v)['params']) if p[-1] == 'kernel')
+  require(n_dense == len(used), lambda: f'{len(used)} distinct Dense '
+          f'instances are used but init created {n_dense} kernels: '
+          f'{sorted(L.flat(unfreeze(v)["params"]))}')
+  with sut('apply'):
+    y0 = top.apply(v, x)
+  with sut('bind(v).unbind()'):
+    m2, v2 = top.bind(v).unbind()
+    y2 = m2.apply(v2, x)
+  require(shapes(unfreeze(v2)) == shapes(unfreeze(v)), 'unbind() changed the '
+          'variable tree')
+  require(out_eq(y0, y2), 'bind(v).unbind() applied to its variables computes '
+          'something else')
+  with sut('init(unbound module)'):
+    v3 = m2.init(key, x)
+  require(tree_eq(unfreeze(v3), unfreeze(v)), lambda: 're-initialising the '
+          f'unbound module gives {shapes(unfreeze(v3))}, the original '
+          f'{shapes(unfreeze(v))}')
+  with sut('clone / copy'):
+    require(out_eq(top.clone().apply(v, x), y0), 'clone() computes something '
+            'else on the same variables')
+    require(out_eq(top.copy().apply(v, x), y0), 'copy() computes something '
+            'else on the same variables')
+  # every attribute sub-module, unbound on its own
+  def attr_paths(node, path):
+    out = [path] if path else []
+    if 'wrap' in node:
+      out += attr_paths(node['wrap'], path + ('inner',))
+    elif 'pair' in node:
+      out += attr_paths(node['pair'][0], path + ('a',))
+      out += attr_paths(node['pair'][1], path + ('b',))
+    return out
+  bound = top.bind(v)
+  any_shared = any(len(ps) >= 2 for ps in used.values())
+  # a shared instance belongs to the parent that binds it first; reaching
+  # into a bound tree attribute by attribute binds in another order than
+  # apply does, so sub-modules are taken out one by one only when nothing is
+  # shared (the whole-tree laws above cover sharing)
+  for pth in ([] if any_shared else
+              attr_paths({'wrap': tree, 'scale': 1.0}, ())):
+    sub = bound
+    for a in pth:
+      sub = getattr(sub, a)
+    with sut(f'bind(v).{".".join(pth)}'):
+      y_in = sub(x)
+      cm, cv = sub.unbind()
+      y_out = cm.apply(cv, x)
+    require(out_eq(y_in, y_out), lambda: f'sub-module at {pth} obtained with '
+            'unbind() computes something else on its own variable subtree')
+  shared_deep = any(len(ps) >= 2 and sum(len(p) >= 3 for p in ps) >= 2
+                    for ps in used.values())
+  ctx.note(labels=[f'instances{len(used)}',
+                   'shared' if any(len(ps) >= 2 for ps in used.values())
+                   else 'unshared'], nontrivial=shared_deep)
 
 
 # ----------------------------------------------------------------------------
